@@ -89,6 +89,12 @@ META = {
         level_note="Mutants that equal the original in every signed field after decoding are trivial and not offered. Known findings taint the base ledger; the world is rebuilt after each and the excluded cases are counted.",
         technique="property-based testing: mutation-based (metamorphic) generation over valid vertices, exhaustive single-bit flips, reject-and-unchanged oracle",
     ),
+    "C14": dict(
+        level_text="Source ledgers come from generated histories (multi-tip, rogue branches, optionally truncated); the peer's real stream is checked against its live graph, optionally permuted or corrupted once, loaded directly or through the real LoadDag RPC over an in-memory connection; loaded ledgers are compared vertex by vertex, edge by edge, balance by balance and by follow-up gossip outcomes with the peer.",
+        design_ref="DESIGN.md §4 C14",
+        level_note="Two known findings (truncated peer not syncable; weight/throughput state not transferred). After a weight-rule divergence the case stops comparing. Completion of the asynchronous LoadDag behind updateDag is detected from the goroutine profile.",
+        technique="property-based testing: differential (peer vs loaded node) over generated ledgers, stream permutations and single-fault injection",
+    ),
 }
 
 def _na():
